@@ -77,11 +77,15 @@ Definition safety_b (acc : bool) (obs : auth_out) : bool :=
   end.
 
 (** LOGIN over a connection *)
-Record wcase := mk_wcase { wc_tls : bool; wc_d : str; wc_line : str; wc_b : outcome;
+Record wcase := mk_wcase { wc_tls : bool; wc_d : str; wc_tag : str; wc_line : str; wc_b : outcome;
   wc_intended : option (astring_form * astring_form * str * str); wc_obs : auth_out }.
 Definition wcase_eval (c : wcase) : res :=
   let m := run_creds (wc_d c) (login_creds false (wc_tls c) (wc_line c)) (wc_b c) true true in
-  (out_eqb (wc_b c) m (wc_obs c),
+  (out_eqb (wc_b c) m (wc_obs c)
+   && match wc_intended c with
+      | Some (fu, fp, u, p) => str_eqb (login_line (wc_tag c) fu fp u p) (wc_line c)
+      | None => true
+      end,
    match wc_intended c with
    | Some (_, _, u, p) => imap_spec_b (wc_d c) u p (accepted (wc_b c)) (wc_obs c)
    | None => safety_b (accepted (wc_b c)) (wc_obs c)
@@ -97,11 +101,15 @@ Definition wcase_eval (c : wcase) : res :=
 
 (** AUTHENTICATE PLAIN over a connection; intended = (authzid, u, p) sent as
     base64 of authzid NUL u NUL p *)
-Record pcase := mk_pcase { pc_tls : bool; pc_d : str; pc_data : str; pc_b : outcome;
+Record pcase := mk_pcase { pc_tls : bool; pc_d : str; pc_authzid : str; pc_data : str; pc_b : outcome;
   pc_intended : option (str * str); pc_obs : auth_out }.
 Definition pcase_eval (c : pcase) : res :=
   let m := run_creds (pc_d c) (authplain_creds false (pc_tls c) (pc_data c)) (pc_b c) true true in
-  (out_eqb (pc_b c) m (pc_obs c),
+  (out_eqb (pc_b c) m (pc_obs c)
+   && match pc_intended c with
+      | Some (u, p) => str_eqb (b64_encode (pc_authzid c ++ NUL :: u ++ NUL :: p) ++ crlf) (pc_data c)
+      | None => true
+      end,
    match pc_intended c with
    | Some (u, p) => imap_spec_b (pc_d c) u p (accepted (pc_b c)) (pc_obs c)
    | None => safety_b (accepted (pc_b c)) (pc_obs c)
